@@ -158,6 +158,36 @@ pub fn anyv() -> Ty {
     assert body2 != body
     mods.append(Module(f'm{start + 1:04d}', "the same enum with the reference target spelled `&u8` (elided lifetime) at type level and in the field marker", body2, [h1, h2],
                        sample=dict(type_definition=decl[:200]), functions=FUNCTIONS))
+    # reference targets that need parentheses: `&'static (dyn A + B)`; the key built for the target must survive printing and re-parsing
+    pdecl = '''use core::fmt::Debug;
+#[derive(Educe)]
+#[educe(Into(&'static (dyn Debug + Send + Sync)), Into(u8))]
+#[derive(Clone, Copy)]
+pub struct Pt { pub a: u8, pub d: &'static (dyn Debug + Send + Sync), pub pad: u16 }
+#[derive(Educe)]
+#[educe(Into(&'static (dyn Debug + Send + Sync)))]
+#[derive(Clone, Copy)]
+pub enum Pe { A(u16, #[educe(Into(&'static (dyn Debug + Send + Sync)))] &'static (dyn Debug + Send + Sync)), B { d: &'static (dyn Debug + Send + Sync) } }
+pub static P0: u8 = 7;
+pub static P1: u16 = 9;
+'''
+    hp = Harness('h_into_paren', covers=['reached'])
+    pbody = PRE + pdecl + hp.attrs() + '''pub fn h_into_paren() {
+    let first: bool = kani::any();
+    let d: &'static (dyn Debug + Send + Sync) = if first { &P0 } else { &P1 };
+    let x = Pt { a: Sym::sym(), d, pad: Sym::sym() };
+    let got: &'static (dyn Debug + Send + Sync) = Into::into(x);
+    kani::cover!(true, "reached");
+    assert!(got as *const (dyn Debug + Send + Sync) as *const u8 == d as *const (dyn Debug + Send + Sync) as *const u8, "Into<&(dyn ..)> did not return the designated reference field");
+    let b: u8 = Into::into(x);
+    assert!(b == x.a);
+    let e = if first { Pe::A(Sym::sym(), d) } else { Pe::B { d } };
+    let got2: &'static (dyn Debug + Send + Sync) = Into::into(e);
+    assert!(got2 as *const (dyn Debug + Send + Sync) as *const u8 == d as *const (dyn Debug + Send + Sync) as *const u8, "enum Into<&(dyn ..)>");
+}
+'''
+    mods.append(Module(f'm{start + 3:04d}', "struct / enum with a `&'static (dyn Debug + Send + Sync)` field and target (parenthesised trait-object reference)", pbody, [hp],
+                       sample=dict(type_definition=pdecl[:300]), functions=FUNCTIONS))
     body3 = body.replace("#[educe(Into(u8), Into(&'static u8))]", '#[educe(Into(&u8), Into(u8))]')
     mods.append(Module(f'm{start + 2:04d}', "the same enum with `&u8` at type level only (field marker `&'static u8`), targets in the other order", body3, [h1, h2],
                        sample=dict(type_definition=decl[:200]), functions=FUNCTIONS))
